@@ -20,17 +20,25 @@ for v in vs:
     src = open(path).read()
     if src.count(v["old"]) != 1:
         print("SKIP %-28s anchor text occurs %d times" % (v["name"], src.count(v["old"]))); bad += 1; continue
+    extra = []
     try:
         open(path, "w").write(src.replace(v["old"], v["new"]))
+        for a in v.get("also", []):
+            ap = os.path.join(REPO, a["file"])
+            asrc = open(ap).read()
+            extra.append((ap, asrc))
+            open(ap, "w").write(asrc.replace(a["old"], a["new"]))
         r = subprocess.run([os.path.join(HERE, "vf"), "check", v["prop"]], stdout=subprocess.PIPE, stderr=subprocess.STDOUT, text=True)
         out = r.stdout
-        fired = [l for l in out.splitlines() if (" %s " % v["rule"]) in l and ("VIOLATION" in l or "UNRECOGNISED" in l)]
+        fired = [l for l in out.splitlines() if (" %s" % v["rule"]) in l and ("VIOLATION" in l or "UNRECOGNISED" in l)]
         status = "OK  " if (r.returncode == 1 and fired) else "MISS"
         if status == "MISS":
             bad += 1
         print("%s %-28s rc=%d %s" % (status, v["name"], r.returncode, (fired[0].strip()[:230] if fired else out.strip().splitlines()[-1][:230])))
     finally:
         open(path, "w").write(src)
+        for ap, asrc in extra:
+            open(ap, "w").write(asrc)
 # evidence files must describe the unchanged tree: put back what was there before the variants ran
 if os.path.isdir(os.path.join(_bak, "evidence")):
     shutil.rmtree(EV, ignore_errors=True)
